@@ -541,6 +541,25 @@ Proof.
     + rewrite Hf. discriminate.
 Qed.
 
+Lemma verify_method_token cx ep rq now jdb m ai jdb' t :
+  verify_method cx ep rq now jdb m = (VOk ai, jdb') -> ai_token ai = Some t ->
+  m = MBearerHeader \/ m = MBearerBody.
+Proof.
+  intros Hv Ht. destruct m; cbn [verify_method] in Hv; auto; exfalso.
+  - destruct (r_hdr rq); try discriminate. destruct (split1_c colon s) as [[a b]|]; [|discriminate].
+    inversion Hv as [[Hs Hj]]. apply secret_check_ok in Hs as [-> _]. discriminate.
+  - destruct (r_client_id rq), (r_client_secret rq); try discriminate.
+    inversion Hv as [[Hs Hj]]. apply secret_check_ok in Hs as [-> _]. discriminate.
+  - destruct (r_assertion rq); [|discriminate].
+    apply jws_verify_ok in Hv as [j [i [_ [_ [-> _]]]]]. discriminate.
+  - destruct (r_assertion rq); [|discriminate].
+    apply jws_verify_ok in Hv as [j [i [_ [_ [-> _]]]]]. discriminate.
+  - destruct (r_request rq); [|discriminate].
+    apply request_param_verify_ok in Hv as [j [i [_ [_ [-> _]]]]]. discriminate.
+  - destruct (r_client_id rq); [|discriminate]. inversion Hv; subst. discriminate.
+  - inversion Hv; subst. discriminate.
+Qed.
+
 Theorem userinfo_sound cx ep rq now jdb jdb' X t :
   parse_request cx ep rq now jdb = (Ok (PUserinfo (Some X) t), jdb') ->
   exists ai, client_authentication cx ep rq now jdb = (Ok (Some ai), jdb')
@@ -558,22 +577,116 @@ Proof.
       apply loop_ok in Hl as [m [jm [_ [_ [Hv _]]]]].
       assert (ai_method ai = MBearerHeader \/ ai_method ai = MBearerBody) as Hm.
       { destruct (verify_method_ok _ _ _ _ _ _ _ _ Hv) as [Hm _]. subst m.
-        destruct (ai_method ai); cbn [verify_method] in Hv; auto; exfalso.
-        - destruct (r_hdr rq); try discriminate. destruct (split1_c colon s) as [[a b]|]; [|discriminate].
-          inversion Hv. apply secret_check_ok in H1 as [-> _]. discriminate.
-        - destruct (r_client_id rq), (r_client_secret rq); try discriminate.
-          inversion Hv. apply secret_check_ok in H1 as [-> _]. discriminate.
-        - destruct (r_assertion rq); [|discriminate].
-          apply jws_verify_ok in Hv as [j [i [_ [_ [-> _]]]]]. discriminate.
-        - destruct (r_assertion rq); [|discriminate].
-          apply jws_verify_ok in Hv as [j [i [_ [_ [-> _]]]]]. discriminate.
-        - destruct (r_request rq); [|discriminate].
-          apply request_param_verify_ok in Hv as [j [i [_ [_ [-> _]]]]]. discriminate.
-        - destruct (r_client_id rq); [|discriminate]. inversion Hv; subst. discriminate.
-        - inversion Hv; subst. discriminate. }
+        eapply verify_method_token; eauto. }
       split; [exact Hm|].
       apply (sound _ _ _ _ _ _ _ _ E H1). destruct Hm as [-> | ->]; reflexivity.
     + destruct (is_cae e); discriminate.
   - destruct r as [[ai|]|e|]; try discriminate.
     destruct (ai_client ai) as [[|x c]|]; discriminate.
 Qed.
+
+(* ------------------------------------------------------------------ C01_unforgeable (symbolic, Lib/Crypto.v) *)
+Definition vkey_skey (v : vkey) : skey :=
+  match v with VOct s => KSym s | VRsa n => KRsa n | VEc n => KEc n end.
+
+Lemma key_verifies_skey a k v : key_verifies a k v = true -> k = vkey_skey v.
+Proof.
+  destruct a, k, v; cbn; intro H; try discriminate.
+  - apply str_eqb_eq in H. now subst.
+  - apply Nat.eqb_eq in H. now subst.
+  - apply Nat.eqb_eq in H. now subst.
+Qed.
+
+Definition opt_atom (o : option pystr) : term := match o with Some s => Atom s | None => Atom [] end.
+Definition optz_atom (o : option Z) : term := match o with Some z => Atom (str_of_Z z) | None => Atom [] end.
+
+Section Unforgeable.
+  Variable K : term -> Prop.        (* everything the honest parties ever published *)
+  Variable sk : skey -> nat.        (* numbering of key material: which Crypto key a symbolic key is *)
+
+  Definition claims_term (j : jwt) : term :=
+    Pair (opt_atom (j_iss j))
+      (Pair (opt_atom (j_jti j))
+         (Pair (optz_atom (j_exp j))
+            (match j_aud j with Some l => Pair (Atom [1%N]) (Atom (join [0%N] l)) | None => Atom [] end))).
+  (* a signed JWT is a MAC / signature over its claims; alg none is the bare claims *)
+  Definition jwt_term (j : jwt) : term :=
+    match j_alg j with
+    | AlgNone => claims_term j
+    | AlgHS => Mac (sk (j_key j)) (claims_term j)
+    | AlgRS | AlgES => Sig (sk (j_key j)) (claims_term j)
+    end.
+  Definition token_term (t : option token) : term :=
+    match t with Some (Jwt j) => jwt_term j | _ => Atom [] end.
+  (* a presented password is key material: the adversary can present only what it can derive *)
+  Definition password_term (p : pystr) : term := Key (sk (KSym p)).
+  Definition hdr_term (h : header) : term :=
+    match h with
+    | HBasicText s => match split1_c colon s with
+                      | Some (id, p) => Pair (Atom id) (password_term p)
+                      | None => Atom s
+                      end
+    | HBearer t => Atom t
+    | _ => Atom []
+    end.
+  Definition req_term (rq : request) : term :=
+    Pair (hdr_term (r_hdr rq))
+      (Pair (match r_client_secret rq with Some p => password_term p | None => Atom [] end)
+         (Pair (token_term (r_assertion rq)) (token_term (r_request rq)))).
+
+  Definition never_published (k : skey) : Prop := forall t, K t -> ~ sub (Key (sk k)) t.
+
+  Lemma signed_jwt_genuine j :
+    j_alg j <> AlgNone -> never_published (j_key j) -> derivable K (jwt_term j) ->
+    exists t0, K t0 /\ sub (jwt_term j) t0.
+  Proof.
+    unfold jwt_term. intros Ha Hs Hd. destruct (j_alg j); [congruence| | |].
+    - eapply mac_genuine; eauto.
+    - eapply sig_genuine; eauto.
+    - eapply sig_genuine; eauto.
+  Qed.
+
+  Theorem unforgeable cx ep rq now jdb jdb' ai X :
+    client_authentication cx ep rq now jdb = (Ok (Some ai), jdb') ->
+    ai_client ai = Some X ->
+    meth_in (ai_method ai) [MBasic; MPost; MSecretJwt; MPrivateJwt; MRequestParam] = true ->
+    (forall c s, assoc X (cx_cdb cx) = Some c -> c_secret c = Some s -> never_published (KSym s)) ->
+    (forall l v, assoc X (kj_iss (cx_kj cx)) = Some l -> In v l -> never_published (vkey_skey v)) ->
+    (forall v, In v (kj_own (cx_kj cx)) -> never_published (vkey_skey v)) ->
+    derivable K (req_term rq) ->
+    exists j, used_jwt rq (ai_method ai) = Some j /\ j_iss j = Some X
+              /\ exists t0, K t0 /\ sub (jwt_term j) t0.
+  Proof.
+    intros H HX Hm Hsec Hreg Hown Hd.
+    assert (authenticating (ai_method ai) = true) as Hau.
+    { destruct (ai_method ai); cbn in Hm; try discriminate; reflexivity. }
+    destruct (sound _ _ _ _ _ _ _ _ H HX Hau) as [_ [_ Hc]].
+    unfold req_term in Hd.
+    pose proof (d_fst _ _ _ Hd) as Dh. pose proof (d_snd _ _ _ Hd) as D2.
+    pose proof (d_fst _ _ _ D2) as Dp. pose proof (d_snd _ _ _ D2) as D3.
+    pose proof (d_fst _ _ _ D3) as Da. pose proof (d_snd _ _ _ D3) as Dr.
+    assert (forall j, signed_by_client cx X j -> never_published (j_key j)) as Hkey.
+    { intros j [v [Hk [[l [Hl Hf]]|[_ Hin]]]]; rewrite (key_verifies_skey _ _ _ Hk).
+      - eapply Hreg; eauto. assert (In v (filter (vkey_is (j_alg j)) l)) as Hv by (rewrite Hf; now left).
+        apply filter_In in Hv. tauto.
+      - apply Hown; assumption. }
+    inversion Hc; subst; rewrite <- H0 in *.
+    - (* basic: the password is X's secret, which is not derivable *)
+      exfalso. rewrite H1 in Dh. cbn [hdr_term] in Dh. rewrite H2 in Dh.
+      destruct H3 as [c [Hc1 Hc2]].
+      eapply key_secret; [eapply Hsec; eauto|]. eapply d_snd; eauto.
+    - exfalso. rewrite H2 in Dp. destruct H3 as [c [Hc1 Hc2]].
+      eapply key_secret; [eapply Hsec; eauto|]. exact Dp.
+    - exists j. cbn [used_jwt]. rewrite H1. split; [reflexivity|]. destruct H6 as [Hi _]. split; [exact Hi|].
+      rewrite H1 in Da. cbn [token_term] in Da.
+      apply signed_jwt_genuine; auto. rewrite H2. discriminate.
+    - exists j. cbn [used_jwt]. rewrite H1. split; [reflexivity|]. destruct H5 as [Hi _]. split; [exact Hi|].
+      rewrite H1 in Da. cbn [token_term] in Da.
+      apply signed_jwt_genuine; auto. destruct H2 as [-> | ->]; discriminate.
+    - exists j. cbn [used_jwt]. rewrite H1. split; [reflexivity|]. destruct H4 as [Hi _]. split; [exact Hi|].
+      rewrite H1 in Dr. cbn [token_term] in Dr.
+      apply signed_jwt_genuine; auto.
+    - cbn in Hm. discriminate.
+    - cbn in Hm. discriminate.
+  Qed.
+End Unforgeable.
